@@ -778,4 +778,300 @@ theorem eqB_refl (dflt : ν) : ∀ (d : Nat) (t : Tree κ ν d), eqB dflt dflt d
 
 end Eq
 end Dict
+
+/-! ### `fromRandom` -/
+
+section Rand
+variable {π : Type}
+
+theorem randLoop_nil (body : Draws → Option (Option π × Draws)) (s : Draws) :
+    randLoop body [] s = some ([], s) := rfl
+
+/-- one iteration of the loop, inverted -/
+theorem randLoop_cons_some {body : Draws → Option (Option π × Draws)} {c : Nat} {cs : List Nat} {s s' : Draws}
+    {r : Fib Nat π} (h : randLoop body (c :: cs) s = some (r, s')) :
+    ∃ p s1 r1, body s = some (p, s1) ∧ randLoop body cs s1 = some (r1, s') ∧
+      r = (match p with
+           | some v => (c, v) :: r1
+           | none => r1) := by
+  unfold randLoop at h
+  cases hb : body s with
+  | none => rw [hb] at h; cases h
+  | some ps1 =>
+    obtain ⟨p, s1⟩ := ps1
+    rw [hb] at h
+    cases hr : randLoop body cs s1 with
+    | none => simp only [hr] at h; cases h
+    | some rs2 =>
+      obtain ⟨r1, s2⟩ := rs2
+      simp only [hr] at h
+      cases p with
+      | some v =>
+        simp only [Option.some.injEq, Prod.mk.injEq] at h
+        obtain ⟨h1, h2⟩ := h
+        subst h1; subst h2
+        exact ⟨some v, s1, r1, rfl, hr, rfl⟩
+      | none =>
+        simp only [Option.some.injEq, Prod.mk.injEq] at h
+        obtain ⟨h1, h2⟩ := h
+        subst h1; subst h2
+        exact ⟨none, s1, r1, rfl, hr, rfl⟩
+
+/-- every stored element of the loop's result has a coordinate from the loop's range and
+    a payload some iteration produced -/
+theorem randLoop_mem {body : Draws → Option (Option π × Draws)} :
+    ∀ (cs : List Nat) (s s' : Draws) (r : Fib Nat π), randLoop body cs s = some (r, s') →
+      ∀ e ∈ r, e.1 ∈ cs ∧ ∃ s1 s2, body s1 = some (some e.2, s2) := by
+  intro cs
+  induction cs with
+  | nil =>
+    intro s s' r h e he
+    rw [randLoop_nil] at h
+    cases h; cases he
+  | cons c cs ih =>
+    intro s s' r h e he
+    obtain ⟨p, s1, r1, hb, hr, rfl⟩ := randLoop_cons_some h
+    cases p with
+    | none =>
+      obtain ⟨h1, h2⟩ := ih s1 s' r1 hr e he
+      exact ⟨List.mem_cons_of_mem _ h1, h2⟩
+    | some v =>
+      rcases List.mem_cons.1 he with rfl | he
+      · exact ⟨List.mem_cons_self .., s, s1, hb⟩
+      · obtain ⟨h1, h2⟩ := ih s1 s' r1 hr e he
+        exact ⟨List.mem_cons_of_mem _ h1, h2⟩
+
+/-- the stored coordinates are a sub-sequence of the loop's range -/
+theorem randLoop_sublist {body : Draws → Option (Option π × Draws)} :
+    ∀ (cs : List Nat) (s s' : Draws) (r : Fib Nat π), randLoop body cs s = some (r, s') →
+      (r.map (·.1)).Sublist cs := by
+  intro cs
+  induction cs with
+  | nil => intro s s' r h; rw [randLoop_nil] at h; cases h; exact List.Sublist.refl _
+  | cons c cs ih =>
+    intro s s' r h
+    obtain ⟨p, s1, r1, hb, hr, rfl⟩ := randLoop_cons_some h
+    cases p with
+    | none => exact (ih s1 s' r1 hr).cons c
+    | some v => exact (ih s1 s' r1 hr).cons_cons c
+
+/-- loop invariant for "fills the shape": if every iteration preserves `I` and yields
+    either a payload whose points are `P` or nothing when `P` is empty, the result's
+    points are `P` under every coordinate of the range -/
+theorem randLoop_full {body : Draws → Option (Option π × Draws)} (I : Draws → Prop)
+    (pts : π → List (List Nat)) (P : List (List Nat))
+    (hbody : ∀ s p s1, I s → body s = some (p, s1) →
+      I s1 ∧ (match p with
+              | some t => pts t = P
+              | none => P = [])) :
+    ∀ (cs : List Nat) (s s' : Draws) (r : Fib Nat π), I s → randLoop body cs s = some (r, s') →
+      I s' ∧ r.flatMap (fun e => (pts e.2).map (fun p => e.1 :: p)) =
+             cs.flatMap (fun c => P.map (fun p => c :: p)) := by
+  intro cs
+  induction cs with
+  | nil =>
+    intro s s' r hI h
+    rw [randLoop_nil] at h
+    cases h
+    exact ⟨hI, rfl⟩
+  | cons c cs ih =>
+    intro s s' r hI h
+    obtain ⟨p, s1, r1, hb, hr, rfl⟩ := randLoop_cons_some h
+    obtain ⟨hI1, hp⟩ := hbody s p s1 hI hb
+    obtain ⟨hI', hr1⟩ := ih s1 s' r1 hI1 hr
+    refine ⟨hI', ?_⟩
+    cases p with
+    | none =>
+      simp only at hp
+      simp only [List.flatMap_cons, hr1, hp, List.map_nil, List.nil_append]
+    | some v =>
+      simp only at hp
+      simp only [List.flatMap_cons, hr1, hp]
+
+/-- appending unused draws to the stream -/
+def Draws.extend (s : Draws) (eu : List Nat) (ei : List Int) : Draws :=
+  { us := s.us ++ eu, is := s.is ++ ei }
+
+/-- if each iteration ignores the draws it does not consume, so does the loop -/
+theorem randLoop_extend {body : Draws → Option (Option π × Draws)} (eu : List Nat) (ei : List Int)
+    (hbody : ∀ s p s1, body s = some (p, s1) → body (s.extend eu ei) = some (p, s1.extend eu ei)) :
+    ∀ (cs : List Nat) (s s' : Draws) (r : Fib Nat π), randLoop body cs s = some (r, s') →
+      randLoop body cs (s.extend eu ei) = some (r, s'.extend eu ei) := by
+  intro cs
+  induction cs with
+  | nil => intro s s' r h; rw [randLoop_nil] at h; cases h; rfl
+  | cons c cs ih =>
+    intro s s' r h
+    obtain ⟨p, s1, r1, hb, hr, rfl⟩ := randLoop_cons_some h
+    unfold randLoop
+    rw [hbody s p s1 hb]
+    simp only [ih s1 s' r1 hr]
+    cases p <;> rfl
+
+end Rand
+
+section RandLeaf
+
+theorem randLeafBody_extend (dflt : Int) (q : Nat) (eu : List Nat) (ei : List Int) (s : Draws) (p : Option Int)
+    (s1 : Draws) (h : randLeafBody dflt q s = some (p, s1)) :
+    randLeafBody dflt q (s.extend eu ei) = some (p, s1.extend eu ei) := by
+  obtain ⟨us, is⟩ := s
+  unfold randLeafBody at h ⊢
+  cases us with
+  | nil => cases h
+  | cons u us' =>
+    simp only [Draws.extend, List.cons_append] at h ⊢
+    by_cases hu : u < q
+    · simp only [hu, if_true] at h ⊢
+      cases is with
+      | nil => cases h
+      | cons v is' =>
+        simp only [List.cons_append, Option.some.injEq, Prod.mk.injEq] at h ⊢
+        obtain ⟨h1, h2⟩ := h
+        subst h1; subst h2
+        exact ⟨rfl, rfl⟩
+    · simp only [hu, if_false] at h ⊢
+      by_cases hd : dflt = 0
+      · simp only [hd, if_true, Option.some.injEq, Prod.mk.injEq] at h ⊢
+        obtain ⟨h1, h2⟩ := h
+        subst h1; subst h2
+        exact ⟨rfl, rfl⟩
+      · simp only [hd, if_false, Option.some.injEq, Prod.mk.injEq] at h ⊢
+        obtain ⟨h1, h2⟩ := h
+        subst h1; subst h2
+        exact ⟨rfl, rfl⟩
+
+/-- the draws are "good": every uniform draw is below `m`, no integer draw is the default -/
+def GoodDraws (m : Nat) (dflt : Int) (s : Draws) : Prop :=
+  (∀ u ∈ s.us, u < m) ∧ (∀ v ∈ s.is, v ≠ dflt)
+
+theorem randLeafBody_good {m : Nat} {dflt : Int} {q : Nat} (hq : m ≤ q) (s : Draws) (p : Option Int) (s1 : Draws)
+    (hI : GoodDraws m dflt s) (h : randLeafBody dflt q s = some (p, s1)) :
+    GoodDraws m dflt s1 ∧ ∃ v, p = some v ∧ v ≠ dflt := by
+  obtain ⟨us, is⟩ := s
+  obtain ⟨hu, hv⟩ := hI
+  unfold randLeafBody at h
+  cases us with
+  | nil => cases h
+  | cons u us' =>
+    have hlt : u < q := Nat.lt_of_lt_of_le (hu u (List.mem_cons_self ..)) hq
+    simp only [hlt, if_true] at h
+    cases is with
+    | nil => cases h
+    | cons v is' =>
+      have hvd : v ≠ dflt := hv v (List.mem_cons_self ..)
+      simp only [hvd, if_false, Option.some.injEq, Prod.mk.injEq] at h
+      obtain ⟨h1, h2⟩ := h
+      subst h1; subst h2
+      exact ⟨⟨fun x hx => hu x (List.mem_cons_of_mem _ hx), fun x hx => hv x (List.mem_cons_of_mem _ hx)⟩,
+        v, rfl, hvd⟩
+
+end RandLeaf
+
+section RandUpper
+
+/-- the loop body of `fromRandom` above the leaf level -/
+def randUpperBody (dflt : Int) (d : Nat) (ns qs : List Nat) (q : Nat) (s0 : Draws) :
+    Option (Option (Tree Nat Int (d + 1)) × Draws) :=
+  match s0.us with
+  | [] => none
+  | u :: us' =>
+    if u < q then
+      match fromRandom dflt d ns qs { s0 with us := us' } with
+      | none => none
+      | some (t, s1) => some ((if isEmpty dflt (d + 1) t then none else some t), s1)
+    else if dflt = 0 then some (none, { s0 with us := us' })
+    else none
+
+theorem fromRandom_zero (dflt : Int) (n : Nat) (ns : List Nat) (q : Nat) (qs : List Nat) (s : Draws) :
+    fromRandom dflt 0 (n :: ns) (q :: qs) s = randLoop (randLeafBody dflt q) (List.range n) s := rfl
+
+theorem fromRandom_succ (dflt : Int) (d n : Nat) (ns : List Nat) (q : Nat) (qs : List Nat) (s : Draws) :
+    fromRandom dflt (d + 1) (n :: ns) (q :: qs) s =
+      randLoop (randUpperBody dflt d ns qs q) (List.range n) s := rfl
+
+theorem fromRandom_nil_shape (dflt : Int) (d : Nat) (dens : List Nat) (s : Draws) :
+    fromRandom dflt d [] dens s = none := by
+  cases d <;> rfl
+
+theorem fromRandom_nil_dens (dflt : Int) (d : Nat) (shape : List Nat) (s : Draws) :
+    fromRandom dflt d shape [] s = none := by
+  cases d <;> cases shape <;> rfl
+
+/-- inversion of one upper-level iteration that produced something -/
+theorem randUpperBody_some {dflt : Int} {d : Nat} {ns qs : List Nat} {q : Nat} {s0 s1 : Draws}
+    {p : Option (Tree Nat Int (d + 1))} (h : randUpperBody dflt d ns qs q s0 = some (p, s1)) :
+    ∃ u us', s0.us = u :: us' ∧
+      ((u < q ∧ ∃ t, fromRandom dflt d ns qs { s0 with us := us' } = some (t, s1) ∧
+                      p = (if isEmpty dflt (d + 1) t then none else some t)) ∨
+       (¬ u < q ∧ dflt = 0 ∧ p = none ∧ s1 = { s0 with us := us' })) := by
+  unfold randUpperBody at h
+  cases hus : s0.us with
+  | nil => rw [hus] at h; cases h
+  | cons u us' =>
+    rw [hus] at h
+    refine ⟨u, us', rfl, ?_⟩
+    by_cases hu : u < q
+    · simp only [hu, if_true] at h
+      cases hr : fromRandom dflt d ns qs { s0 with us := us' } with
+      | none => rw [hr] at h; cases h
+      | some ts =>
+        obtain ⟨t, s2⟩ := ts
+        rw [hr] at h
+        simp only [Option.some.injEq, Prod.mk.injEq] at h
+        obtain ⟨h1, h2⟩ := h
+        subst h2
+        exact Or.inl ⟨hu, t, rfl, h1.symm⟩
+    · simp only [hu, if_false] at h
+      by_cases hd : dflt = 0
+      · simp only [hd, if_true, Option.some.injEq, Prod.mk.injEq] at h
+        obtain ⟨h1, h2⟩ := h
+        exact Or.inr ⟨hu, hd, h1.symm, h2.symm⟩
+      · simp only [hd, if_false] at h
+        cases h
+
+end RandUpper
+
+section Points
+variable {κ ν : Type} [DecidableEq ν]
+
+theorem content_zero (dflt : ν) (v : ν) :
+    content (κ := κ) dflt 0 v = if v = dflt then [] else [([], v)] := rfl
+
+theorem content_succ_asList (dflt : ν) (d : Nat) (f : Tree κ ν (d + 1)) :
+    content dflt (d + 1) f =
+      (asList f).flatMap (fun e => (content dflt d e.2).map (fun pv => (e.1 :: pv.1, pv.2))) := rfl
+
+theorem content_zero_of_isEmpty (dflt : ν) (v : ν) (h : isEmpty (κ := κ) dflt 0 v = true) :
+    content (κ := κ) dflt 0 v = [] := by
+  have hv : v = dflt := of_decide_eq_true h
+  show (if v = dflt then [] else [([], v)]) = []
+  rw [if_pos hv]
+
+theorem points_succ (dflt : ν) (d : Nat) (t : Tree κ ν (d + 1)) :
+    points dflt (d + 1) t = (asList t).flatMap (fun e => (points dflt d e.2).map (fun p => e.1 :: p)) := by
+  unfold points
+  rw [content_succ_asList, List.map_flatMap]
+  congr 1
+  funext e
+  rw [List.map_map, List.map_map]
+  rfl
+
+theorem content_eq_nil_of_isEmpty (dflt : ν) : ∀ (d : Nat) (t : Tree κ ν d),
+    isEmpty dflt d t = true → content dflt d t = [] := by
+  intro d
+  induction d with
+  | zero =>
+    intro t h
+    exact content_zero_of_isEmpty dflt t h
+  | succ d ih =>
+    intro t h
+    have h' := List.all_eq_true.1 h
+    rw [content_succ_asList]
+    apply List.flatMap_eq_nil_iff.2
+    intro e he
+    rw [ih e.2 (h' e he)]
+    rfl
+
+end Points
 end Ft
